@@ -1,5 +1,6 @@
 import Adlt.Filter.Proofs
 import Adlt.Filter.Front
+import Adlt.Filter.RoundTrip
 /-! # C11 — a filter matches exactly the conjunction of its criteria, via every front-end
 
 Model: `Flt.matchesImpl` (= `Filter::matches`), `Flt.fromJson` / `Flt.fromDlf` / `Flt.toJson` (front-ends on an abstract
@@ -80,5 +81,84 @@ theorem C11_frontends_agree (reOk : String → Bool) (a : AFilter) (f : Filter) 
 /-- non-vacuity: a dlt-viewer expressible filter that loads from JSON -/
 example : dlfExpressible { apid := some "APID", apidRe := some false, payload := some "Hello" } = true ∧
     (fromJson (fun _ => true) { apid := some "APID", apidRe := some false, payload := some "Hello" }).isSome = true := by decide
+
+theorem listId_agrees (reOk : String → Bool) (s : Option String) (flag : Option Bool) (c : Option IdCrit)
+    (hx : listIdOk s flag = true) (hj : jId reOk s flag = some c) : (s.bind fun x => (char4 x).map IdCrit.lit) = c := by
+  unfold listIdOk at hx
+  cases s with
+  | none => simp at hx
+  | some x =>
+    cases flag with
+    | none => simp at hx
+    | some b =>
+      cases b with
+      | true => simp at hx
+      | false =>
+        simp only [jId, idCrit, Option.getD_some, Bool.false_eq_true, if_false] at hj
+        simp only [Option.bind_some]
+        cases hc : char4 x with
+        | none => simp [hc] at hj
+        | some v => simp [hc] at hj; simp [hj]
+
+/-- the dlt-convert APID/CTID list front-end builds, from an entry it can express (positive, two literal ids of at most four
+    ASCII bytes, nothing else), a filter that decides like the one the JSON front-end builds from the same abstract filter -/
+theorem C11_list_agrees (reOk : String → Bool) (a : AFilter) (f : Filter) (hx : listExpressible a = true)
+    (hj : fromJson reOk a = some f) : ∀ re m, matchesImpl re (fromList a) m = matchesImpl re f m := by
+  intro re m
+  simp only [listExpressible, Bool.and_eq_true, Bool.not_eq_true', Option.isNone_iff_eq_none, beq_iff_eq] at hx
+  obtain ⟨⟨⟨⟨⟨⟨⟨⟨⟨⟨⟨⟨hk, hen⟩, hneg⟩, hecu⟩, hap⟩, hct⟩, hvmm⟩, hmstp⟩, hpl⟩, hplre⟩, hlmin⟩, hlmax⟩, hlcs⟩ := hx
+  unfold fromJson at hj
+  split at hj
+  · rename_i kind ecu apid ctid plre lmin lmax hkind hecuj hapid hctid hplrej hlminj hlmaxj
+    simp only [Option.some.injEq] at hj
+    subst hj
+    apply matchesImpl_congr
+    · show true = a.enabled; rw [hen]
+    · show false = a.negate; rw [hneg]
+    · show none = ecu
+      rw [hecu] at hecuj; simp only [jId, Option.some.injEq] at hecuj; exact hecuj
+    · exact listId_agrees reOk _ _ _ hap hapid
+    · exact listId_agrees reOk _ _ _ hct hctid
+    · show none = vmmOf a
+      unfold vmmOf; rw [hvmm, hmstp]
+    · show none = lmin
+      rw [hlmin] at hlminj; simp only [jLvl, Option.some.injEq] at hlminj; exact hlminj
+    · show none = lmax
+      rw [hlmax] at hlmaxj; simp only [jLvl, Option.some.injEq] at hlmaxj; exact hlmaxj
+    · show none = plre
+      unfold jPlre at hplrej; rw [hplre] at hplrej; simp only [Option.some.injEq] at hplrej; exact hplrej
+    · show none = if a.payloadRegex.isSome then none else a.payload
+      rw [hplre, hpl]; rfl
+    · show false = (a.payloadRegex.isNone && a.payload.isSome && a.ignoreCase)
+      rw [hpl]; simp
+    · show none = a.lifecycles; rw [hlcs]
+  · cases hj
+
+/-- non-vacuity: an entry of the list format -/
+example : listExpressible { apid := some "AP1", apidRe := some false, ctid := some "MAIN", ctidRe := some false } = true := by decide
+
+/-- **JSON round trip**: a filter the JSON front-end produced, serialised with `to_json` and loaded again, is the same filter
+    (hence decides identically on every message, with every regular-expression engine), provided its literal ids are
+    printable ASCII - what `Display for DltChar4` shows faithfully -/
+theorem C11_json_roundtrip (reOk : String → Bool) (a : AFilter) (f : Filter) (h : fromJson reOk a = some f)
+    (hs : Showable f.ecu ∧ Showable f.apid ∧ Showable f.ctid) :
+    fromJson reOk (toJson f) = some f ∧
+    ∀ g, fromJson reOk (toJson f) = some g → ∀ re m, matchesImpl re g m = matchesImpl re f m := by
+  have hfix := json_fixpoint reOk a f h hs
+  refine ⟨hfix, ?_⟩
+  intro g hg re m
+  rw [hfix] at hg
+  cases hg; rfl
+
+/-- the side condition is needed: an id with a control character is shown as `-` and comes back as another id -/
+example : char4 (showId [0x41, 0x01, 0x42, 0x43]) ≠ some [0x41, 0x01, 0x42, 0x43] := by decide
+
+/-- non-vacuity: a filter with literal and regular-expression ids, a case-insensitive payload regex, a type and level bounds -/
+def exA : AFilter :=
+  { ecu := some "ECU1", apid := some "AP.*", apidRe := some true, payloadRegex := some "err", ignoreCase := true,
+    mstp := some 0, lvlMax := some 4 }
+
+example : (fromJson (fun _ => true) exA).isSome = true ∧ Showable (some (IdCrit.lit [0x45, 0x43, 0x55, 0x31])) := by
+  refine ⟨by decide, [0x45, 0x43, 0x55, 0x31], 0, by decide, by decide, by decide⟩
 
 end Props
